@@ -117,6 +117,23 @@ fn gen_file(rng: &mut Rng, target: usize, pool: &mut Vec<Vec<u8>>, world_files: 
     let want = match kind { 0 => 0, 1 => rng.range(1, (target / 8).max(2) as u64) as usize, 2 | 3 => rng.range(1, 4 * target as u64) as usize, _ => rng.range(4 * target as u64, 60 * target as u64) as usize };
     let mut data = Vec::with_capacity(want + 8 * target);
     let comp = rng.below(5);
+    // every sixth file is made of chunk-ALIGNED excerpts of earlier files only: all of its chunks are already stored (a fully
+    // deduplicated file that is not byte-identical to a stored one), possibly from several files / xorbs back to back
+    if !world_files.is_empty() && rng.chance(1, 6) {
+        let (min_c, max_c) = (target / *MINIMUM_CHUNK_DIVISOR, target * *MAXIMUM_CHUNK_MULTIPLIER);
+        for _ in 0..rng.range(1, 3) {
+            let f = rng.pick(world_files); if f.is_empty() { continue; }
+            let lens = crate::suites::chunker::reference_split(f, min_c, max_c, crate::suites::chunker::mask_of(target));
+            if lens.len() < 2 { continue; }
+            let i = rng.below(lens.len() as u64 - 1) as usize; let j = rng.range(i as u64 + 1, (lens.len() - 1) as u64) as usize;   // never the file's last chunk
+            let s0: usize = lens[..i].iter().sum(); let s1: usize = lens[..j].iter().sum();
+            data.extend_from_slice(&f[s0..s1]);
+        }
+        if !data.is_empty() {
+            let parts = if rng.chance(1, 2) { vec![data.len()] } else { let a = rng.below(data.len() as u64 + 1) as usize; vec![a, data.len() - a] };
+            return FileSpec { data, parts };
+        }
+    }
     while data.len() < want {
         let r = rng.below(10);
         if comp >= 1 && !world_files.is_empty() && r < 5 {
